@@ -122,6 +122,8 @@ def replay(prop, path):
         renv["PYTHONHASHSEED"] = sess.get("env", {}).get("hs", "0")
         if sess.get("env", {}).get("O"):
             renv["PYTHONOPTIMIZE"] = sess["env"]["O"]
+        if sess.get("env", {}).get("W"):
+            renv["PYTHONWARNINGS"] = sess["env"]["W"]
         p = subprocess.run([common.PY, "-c", code, sp, tp, model], cwd=common.VERIF, env=renv, stdout=subprocess.PIPE, stderr=subprocess.PIPE)
         if p.returncode != 0:
             raise common.MachineryError(p.stderr.decode()[-2000:])
